@@ -3,7 +3,8 @@ and calls inside one interpreter state; afterwards the caller-visible state is c
 was (provider mappings, annotation attributes).
 
  A|alias|cls,opt,shape            one shared annotation object (opt = its constructor flag, normally 0)
- V|pid|fresh/long/bad/badfalsy/badstr/falsy|scope   a provider object (fresh dict per call / one long-lived dict / not a provider: an object, a falsy object, a string other than "self" / a falsy provider)
+ V|pid|fresh/long/inst/bad/badfalsy/badstr/falsy|scope   a provider object (fresh dict per call / one long-lived dict / `inst`: the method is an attribute of the
+                                  instance, not of its class — a namespace, a module, a mock / not a provider: an object, a falsy object, a string other than "self" / a falsy provider)
  S|pid|scope                      change what the provider returns
  D|fid|pid,-,self:pid,selfraw|name=alias:opt;name=(alias:opt+alias:opt)|ret|nested   (nested: fid | - | set:pid=k:3,n:4 = the body updates provider pid)
  I|newfid|fid|pid                 the method `fid` (declared with self:...) through another instance whose mapping is provider pid's
@@ -40,6 +41,18 @@ class FalsyProv(Prov):
 
     def __len__(self):
         return 0
+
+
+class InstProv:
+    """a provider whose `get_dltype_scope` lives on the instance (types.SimpleNamespace, a module with a module-level function, a mock):
+    the protocol is structural, `isinstance(obj, DLTypeScopeProvider)` holds"""
+
+    def __init__(self, d):
+        self.d = dict(d)
+        self.get_dltype_scope = lambda: dict(self.d)
+
+    def set(self, d):
+        self.d = dict(d)
 
 
 class NotProv:
@@ -122,6 +135,8 @@ def op_hist(*steps: str) -> str:
                     provs[f[1]].d = dict(d)
                 elif f[2] == "falsy":
                     provs[f[1]] = FalsyProv("fresh", d)
+                elif f[2] == "inst":
+                    provs[f[1]] = InstProv(d)
                 else:
                     provs[f[1]] = Prov(f[2], d)
                 prov_expected[f[1]] = dict(d)
@@ -148,7 +163,10 @@ def op_hist(*steps: str) -> str:
                 body += "    if RAISE[0]:\n        raise BodyError()\n    return RET[0]\n"
                 if pid.startswith("self:"):
                     src = f"class K_{fid}:\n    def __init__(self, prov):\n        self.prov = prov\n"
-                    if not isinstance(provs.get(pid[5:]), (NotProv, StrProv)):
+                    if isinstance(provs.get(pid[5:]), InstProv):
+                        # the method is assigned in __init__: an attribute of the instance, absent from the class
+                        src += "        self.get_dltype_scope = lambda: self.prov.get_dltype_scope()\n"
+                    elif not isinstance(provs.get(pid[5:]), (NotProv, StrProv)):
                         src += "    def get_dltype_scope(self):\n        return self.prov.get_dltype_scope()\n"
                     # ("self" built at run time: equal to the literal, not the interned object)
                     src += f"    @dltype.dltyped(''.join(('se', 'lf')))\n    def f(self{', ' if sig else ''}{sig}){rets}:\n"
